@@ -2,8 +2,9 @@
    Property theorems only.  Model: model/Proto.v (exec_conn / run / handle_conn);
    protocol table: model/ProtoSpec.v; generated tables: gen/ProtoTable.v, gen/Consts.v. *)
 From Coq Require Import List NArith ZArith Bool.
+From Coq Require String.
 From NSQV Require Import gen.Consts gen.ProtoTable model.Judge model.Names model.Num model.Proto model.ProtoSpec
-     proofs.NamesProofs proofs.ProtoProofs proofs.ProtoTableProofs.
+     proofs.NamesProofs proofs.ProtoProofs proofs.ProtoTableProofs proofs.ProtoLineProofs.
 Import ListNotations.
 Open Scope Z_scope.
 
@@ -121,6 +122,42 @@ Theorem C09_limits_connection : forall cf orc json bs, Forall (out_ok cf) (handl
 Proof. exact handle_conn_limits. Qed.
 Print Assumptions C09_limits_connection.
 
+(* ------------------------------------------------------------------ the command line is bounded *)
+(* Every command the loop executes was split from a line that fits the connection's read
+   buffer: its parameters and the spaces between them take less than defaultBufferSize
+   bytes - for every byte sequence, however long its lines. *)
+Theorem C09_line_bounded : forall cf orc json st bs,
+  Forall ev_line_bounded (steps cf orc json (length bs) st bs).
+Proof. exact line_bounded_len. Qed.
+Print Assumptions C09_line_bounded.
+
+(* A full buffer without a delimiter ends the connection with the close alone - no frame,
+   no effect - from every state, WHATEVER follows it: a delimiter later on, more bytes,
+   the end of the stream or nothing at all.  The decision needs no byte beyond the buffer:
+   no input makes the daemon hold more than defaultBufferSize bytes of an unfinished line. *)
+Theorem C09_long_line_dropped : forall cf orc json st pre post,
+  length pre = buffer_size -> ~ In NL pre ->
+  run cf orc json st (pre ++ post) = [Close].
+Proof. exact run_long_line. Qed.
+Print Assumptions C09_long_line_dropped.
+
+Theorem C09_long_line_dropped_connection : forall cf orc json pre post,
+  length pre = buffer_size -> ~ In NL pre ->
+  handle_conn cf orc json (magic_v2 ++ pre ++ post) = [Close].
+Proof. exact handle_conn_long_line. Qed.
+Print Assumptions C09_long_line_dropped_connection.
+
+(* the source reads a command line with ReadSlice('\n') (the bufio read that fails when the
+   buffer is full instead of growing), on readers of defaultBufferSize bytes, which is the
+   model's buffer *)
+Theorem C09_line_reader_is_source :
+  (ioloop_line_reads = [(name_ReadSlice, NL)]
+   /\ reader_sizes <> []
+   /\ forallb (String.eqb name_defaultBufferSize) reader_sizes = true)
+  /\ Z.of_nat buffer_size = nsqd_defaultBufferSize.
+Proof. exact (conj line_reader_matches buffer_matches). Qed.
+Print Assumptions C09_line_reader_is_source.
+
 (* the name rule, for every byte string *)
 Theorem C09_names : forall l,
   is_valid_name l = true <-> (1 <= length l <= 64)%nat /\ matches_spec l.
@@ -227,6 +264,28 @@ Example C09_witness_long_line :
   exec_conn ex_cfg yes nojson (repeat 120%N 16384 ++ [10]%N) = [Close]
   /\ exec_conn ex_cfg yes nojson (repeat 120%N 16383 ++ [10]%N) = [Err E_INVALID; Close].
 Proof. split; vm_compute; reflexivity. Qed.
+
+(* the hypotheses of C09_long_line_dropped are satisfiable, and its conclusion is not the
+   general rule: one byte less and the same line is executed (and echoes nothing: the frame
+   carries a code); a client that goes on streaming after the full buffer changes nothing *)
+Example C09_witness_long_line_any_suffix :
+  let pre := repeat 120%N 16384 in
+  length pre = buffer_size /\ ~ In NL pre
+  /\ run ex_cfg yes nojson (init_state ex_cfg) (pre ++ repeat 120%N 50000) = [Close]
+  /\ run ex_cfg yes nojson (init_state ex_cfg) (pre ++ [10; 78;79;80;10]%N) = [Close]
+  /\ run ex_cfg yes nojson (init_state ex_cfg) (repeat 120%N 16383 ++ [10; 78;79;80;10]%N) = [Err E_INVALID; Close].
+Proof.
+  split; [vm_compute; reflexivity|]. split.
+  - intro H. apply repeat_spec in H. discriminate.
+  - split; [|split]; vm_compute; reflexivity.
+Qed.
+
+(* C09_line_bounded on a concrete stream: the longest line that is still executed *)
+Example C09_witness_line_bounded :
+  map (fun e => match e with EvCmd _ c p _ _ => Some (c, Z.of_nat (params_bytes p)) | _ => None end)
+      (steps ex_cfg yes nojson buffer_size (init_state ex_cfg) (repeat 120%N 16383 ++ [10]%N))
+  = [Some (CUnknown, 16383)].
+Proof. vm_compute. reflexivity. Qed.
 
 (* IDENTIFY: an in-range record is accepted with its values; heartbeat 999 is refused *)
 Example C09_witness_identify :
